@@ -8,11 +8,11 @@ V = Path(__file__).resolve().parent.parent
 CHECKS = {
  "C01": ("runtime invertibility monitor: every accepted edit is inverted (inverse() / undo()) and re-inverted inside the session, canonical states compared", "exactness of inverses on all generated (state, edit) pairs incl. primitives; held on the observed executions only", "state = every registered feature, every other stored attribute and the bit-exact label array; small forests (<= ~30 nodes), sessions <= 30 steps, history-walk scenarios injected"),
  "C02": ("reference-model monitor (list+cursor timeline) fed by the recorded call trace; bounded-exhaustive words + sampled long words", "every undo/redo/edit of all words up to the bound and of sampled long words agreed with the timeline model", "model compares canonical states; edit slots are resolved deterministically per state"),
- "C03": ("runtime invariant monitor + independent refusal predictor over shimmed real actions; all-pairs UserAddEdge sweeps on deep copies", "forest invariant and refusal/force clause held after every observed call", "small forests; refusals for non-structural reasons not judged"),
+ "C03": ("runtime invariant monitor + independent refusal predictor over shimmed real actions; all-pairs UserAddEdge sweeps on deep copies; sessions end with a bulk id re-computation or save+load followed by adds on freshly issued ids", "forest invariant and refusal/force clause held after every observed call", "small forests; refusals for non-structural reasons not judged"),
  "C04": ("runtime invariant monitor: own union-find partition oracle + frame clause with an own history model", "partition oracle and frame clause held at construction and after every observed call", "track-id feature enabled; small forests"),
- "C05": ("runtime invariant monitor: own union-find component oracle + frame clause with an own history model", "component oracle and frame clause held at construction and after every observed call", "lineage feature enabled; small forests"),
+ "C05": ("runtime invariant monitor: own union-find component oracle + frame clause with an own history model; lineage feature switched off / on (bulk re-computation judged like a construction)", "component oracle and frame clause held at construction and after every observed call", "lineage feature enabled; small forests"),
  "C06": ("runtime monitor comparing lookup tables and queries with a scan of the graph after every call (presence queries before any neighbour query, which sorts in place); freshness of issued ids incl. 'a newly appearing id labels one segment / component'", "all lookup/query comparisons agreed with the scan on the observed states", "preservation form per clause; track ids below a few hundred"),
- "C07": ("runtime invariant monitor (label/node bijection, get_pixels) + paint driver comparing arrays bit for bit after edit, undo, redo", "bijection and paint exactness held on all observed strokes and edits", "strokes within one frame with label 0 / node of the frame / unused"),
+ "C07": ("runtime invariant monitor (label/node bijection, get_pixels) + paint driver comparing arrays bit for bit after edit, undo, redo + list-plus-cursor timeline of the label array through every undo/redo of the session", "bijection and paint exactness held on all observed strokes and edits", "strokes within one frame with label 0 / node of the frame / unused"),
  "C08": ("runtime monitor: every enabled regionprops value vs. plain numpy and vs. two from-scratch computations (whole frame, node's own mask alone) after every call; feature toggles, scripted stale-value scenario, primitives", "all value comparisons agreed on the observed states", "2-D anisotropic perimeter/circularity excluded (scikit-image raises NotImplementedError); values judged only while their feature is enabled"),
  "C09": ("runtime monitor: every edge IoU vs. numpy overlap after every call + differential bulk recomputation on a deep copy", "all edge comparisons (skip and consecutive, bulk and incremental) agreed", "values judged only while iou is enabled"),
  "C10": ("reference-model monitor (set of enabled keys) over sessions mixing enable/disable with edits; value references of C04/C05/C08/C09", "registry, activation, values after recomputation, frozen disabled values, KeyError/ValueError clauses held on the observed sequences", "track_id toggled only in edit-free windows; lineage_id also switched off alone while edits run"),
@@ -21,7 +21,7 @@ CHECKS = {
  "C13": ("icontract postcondition on the real relabel_segmentation + end-to-end import compared with an element-wise expected array", "all generated (time, seg id) -> node id assignments produced the expected array and a consistent graph shift", "each (time, seg id) referenced by at most one node"),
  "C14": ("round-trip oracle on session end states through the real exporters/importers (CSV x2 headers, GEFF, internal)", "all observed states survived all routes with equal nodes, edges, times, positions, track ids, loaded features, segmentation, scale, registry", "explicit corresponding name maps; an import refused by the importer's one-pixel sample check is excused only if some node's centroid pixel really lies outside its mask in the written state; CSV cannot tell '' / NaN from a missing value"),
  "C15": ("icontract postcondition on the real filter_graph_with_ancestors over all subsets of small forests + read-back of CSV/GEFF subset exports", "closure postcondition held on every subset of every generated forest <= 8 nodes; exports matched the closure", "exports sampled, not exhaustive; export rounds repeated on the same object after accepted edits; movies longer than one 64-frame chunk included"),
- "C16": ("deep-snapshot monitor around read-only operations at random quiescent points of sessions and around every export/save call of the repository's own tests (pytest plugin)", "no observed export/save/query changed the deep state or emitted refresh", "order inside lookup lists is not state"),
+ "C16": ("deep-snapshot monitor (graph and graph-level attributes, every stored attribute, array bytes + writeable flag + dtype, scale, registry, activation, lookup tables, counters, history identities) around read-only operations at random quiescent points of sessions and around every export/save call of the repository's own tests (pytest plugin)", "no observed export/save/query changed the deep state or emitted refresh", "order inside lookup lists is not state"),
  "C17": ("icontract postconditions on the real inference functions; exhaustive over short lists of a confusable vocabulary + random lists + the repository's import/export tests run with the contracts attached", "postconditions held on every enumerated and sampled column list", "vocabulary-bounded; column names distinct"),
  "C18": ("brute-force oracle on generated label arrays / point lists incl. frame gaps and radii exactly on pair distances", "node sets, attributes, edge sets and IoU attributes matched the brute-force reference on all cases", "time scale 1; pairs within 1e-9 of the radius are don't-care unless arithmetic is exact"),
  "C19": ("icontract postcondition on the real ensure_unique_labels + partition oracle for relabel_segmentation_with_track_id", "postcondition / oracle held on all generated arrays and solutions", "label values fit the dtype"),
